@@ -299,18 +299,30 @@ int main(int argc, char **argv) {
       C2.deserialize(base + "C");
       SM2.deserialize(base + "SM");
       world.barrier();
+      // operations issued right after deserialize() returned must survive (every rank has loaded before anyone continues)
+      map<long, long> M3(world, 99);
+      set<long>       S3(world);
+      bag<long>       B3(world);
+      M3.deserialize(base + "M");
+      M3.async_insert(515151 + me, 7);
+      S3.deserialize(base + "S");
+      S3.async_insert(515151 + me);
+      B3.deserialize(base + "B");
+      B3.async_insert(515151 + me, (me + 1) % R);
+      world.barrier();
       auto dumpm = [&](const std::string &tag, auto &m) {
         std::string s = "Z " + std::to_string(me) + " " + tag + " dflt=" + std::to_string(m.m_impl.m_default_value) + " :";
         for (auto &kv : m.m_impl.m_local_map) s += " " + std::to_string(kv.first) + "=" + std::to_string(kv.second);
         line(s);
       };
-      dumpm("M", M); dumpm("M2", M2); dumpm("X", X); dumpm("X2", X2);
+      dumpm("M", M); dumpm("M2", M2); dumpm("X", X); dumpm("X2", X2); dumpm("M3", M3);
       auto dumps = [&](const std::string &tag, auto &m) {
         std::string s = "Z " + std::to_string(me) + " " + tag + " :";
         for (auto &k : m.m_impl.m_local_set) s += " " + std::to_string(k);
         line(s);
       };
-      dumps("S", S); dumps("S2", S2); dumps("T", T); dumps("T2", T2);
+      dumps("S", S); dumps("S2", S2); dumps("T", T); dumps("T2", T2); dumps("S3", S3);
+      line("Z " + std::to_string(me) + " B3 rr=" + std::to_string(B3.m_round_robin) + " :" + join(B3.m_local_bag));
       line("Z " + std::to_string(me) + " B rr=" + std::to_string(B.m_round_robin) + " :" + join(B.m_local_bag));
       line("Z " + std::to_string(me) + " B2 rr=" + std::to_string(B2.m_round_robin) + " :" + join(B2.m_local_bag));
       {
